@@ -223,7 +223,7 @@ func (c Case) faultKind() string {
 // Run is the check entry point.
 func Run(r *vk.Run) {
 	world.Silence()
-	r.Rule = "seeded runs of a real aggregator with MaxPendingHeadersAndData = limit in {1,2,3,5}: rounds of (one header-submission iteration, one data-submission iteration, 1-4 production steps); a DA outage of 0-6 rounds (all submissions fail, or only the header / only the data stream), then an accepting DA layer; block patterns all-empty, all-non-empty, alternating, long empty tails; initial height {1,4}; in half of the runs the node is restarted every 1-4 rounds (clean, or by a crash inside a production step after 0-6 durable writes), also during the outage. Safety per production step: declined => >= limit blocks are beyond the accepted prefix of the header or of the data stream (empty blocks need no data blob); produced => fewer than limit. Liveness: R accepting rounds raise the height by >= R-1. non-trivial = at least one declined step; distinct by parameter tuple"
+	r.Rule = "seeded runs of a real aggregator with MaxPendingHeadersAndData = limit in {1,2,3,5}: rounds of (one header-submission iteration, one data-submission iteration, 1-4 production steps); a DA outage of 0-6 rounds (all submissions fail, or only the header / only the data stream), then an accepting DA layer; block patterns all-empty, all-non-empty, alternating, long empty tails; initial height {1,4}; in half of the runs the node is restarted every 1-4 rounds (clean, or by a crash inside a production step after 0-6 durable writes), also during the outage. Safety per production step: declined => >= limit blocks are beyond the accepted prefix of the header or of the data stream (empty blocks need no data blob); produced => fewer than limit. Liveness: R accepting rounds raise the height by >= R-1. non-trivial = at least one declined step; distinct by parameter tuple. LIVE runs: the node's own HeaderSubmissionLoop and DataSubmissionLoop run (DA block time 1 ms) concurrently with production attempts; cycles of {DA refuses everything until the limit is reached and N submissions were refused (N up to 190: several whole failed submission rounds of 30 attempts), DA accepts again while production is attempted continuously}; declined => the node's own pending counts read just before the step reach the limit; produced => counts read just after do not exceed it; after the outage 8000 production attempts must raise the height by limit+1"
 	r.Assume("a submission round is atomic in the harness: header iteration directly followed by data iteration (the two ticker loops of the node have the same period); production steps do not interleave between them")
 	rng := r.Rand("cases")
 	n := r.N(300, 25000)
@@ -235,22 +235,36 @@ func Run(r *vk.Run) {
 			Pattern: patterns[rng.Intn(len(patterns))], Outage: rng.Intn(7), Burst: 1 + rng.Intn(4), Faults: faults[rng.Intn(len(faults))], Rounds: 4 + rng.Intn(8),
 			Restart: []string{"", "", "clean", "crash"}[rng.Intn(4)], Every: 1 + rng.Intn(4), CrashK: rng.Intn(7)})
 	}
+	var live []LiveCase
+	for i := 0; i < r.N(300, 4000); i++ {
+		live = append(live, genLive(rng, n+i, r.Quick()))
+	}
 	var wg sync.WaitGroup
-	ch := make(chan Case)
+	ch := make(chan any)
 	for w := 0; w < 14; w++ {
 		wg.Add(1)
 		go func() {
 			defer wg.Done()
-			for c := range ch {
-				r.Guard(c, func() { run(r, c) })
+			for j := range ch {
+				switch c := j.(type) {
+				case Case:
+					r.Guard(c, func() { run(r, c) })
+				case LiveCase:
+					r.Guard(c, func() { runLive(r, c) })
+				}
 			}
 		}()
 	}
 	for _, c := range cases {
 		ch <- c
 	}
+	for _, c := range live {
+		ch <- c
+	}
 	close(ch)
 	wg.Wait()
+	r.Require("live-resumes", int64(len(live)))
+	r.Require("live-declined-justified", 100)
 	r.Require("declined-justified", 50)
 	r.Require("resumes", int64(n))
 }
